@@ -14,6 +14,11 @@ for d in sys.argv[1:]:
         print('NOT CONFIRMED', d, {k: str(v)[:80] for k, v in e.items() if k.startswith(('demo', 'build', 'existing'))}); continue
     sid = '%s-%s' % (m['property'], os.path.basename(d))
     dst = '/verif/seeded/' + sid
+    old_hist = None
+    try:
+        old_hist = json.load(open(os.path.join(dst, 'meta.json'))).get('history')
+    except Exception:
+        pass
     shutil.rmtree(dst, ignore_errors=True)
     os.makedirs(dst)
     for f in os.listdir(d):
@@ -25,6 +30,8 @@ for d in sys.argv[1:]:
         elif os.path.getsize(src) < 400000:
             shutil.copy(src, dst)
     m['breaks_property'] = m['property']
+    if old_hist:
+        m['history'] = old_hist
     m['confirmed_by_lead'] = {
         'repo_head_when_confirmed': head,
         'what_was_run': 'tools/seedeval.py: fresh worktree of /repo HEAD; demo on unchanged tree; git apply patch.diff; go build ./...; demo with change; go test of touched packages; VERIF_REPO=<worktree> ./check %s quick' % m['property'],
